@@ -298,6 +298,13 @@ def run(ctx):
                      sample={'n_branches': nbr, 'chain': d['chain'], 'winners': win, 'winner_kinds': kinds, 'exported_first_values': o.get('y0'), 'export': o['exc'] or 'ok'})
             for k in kinds:
                 ctx.dist['winner:' + k] += 1
+            def mid_op(br):   # a non-module op followed (later) by a module inside the branch
+                ops = br.get('ops') or []
+                return any(o[0] == 'f' and any(p[0] == 'm' for p in ops[i + 1:]) for i, o in enumerate(ops))
+            if any(mid_op(br) for b in range(len(nbr)) for i, br in enumerate(d['blocks'][b]['branches']) if i != win[b]):
+                ctx.dist['a LOSING branch has a functional op / method call before one of its layers'] += 1
+            if any(br.get('ops') and br['ops'][-1] == ['f', 10] for b in range(len(nbr)) for br in d['blocks'][b]['branches']):
+                ctx.dist['a branch with a residual connection'] += 1
             if st.get('neartie'):
                 ctx.dist['near-tie gap %s, runner-up %s, T=%s' % (st['neartie']['gap'], st['neartie']['runner'], st.get('temp') or 1)] += 1
                 ctx.extra['near_tie_cases'] = ctx.extra.get('near_tie_cases', 0) + 1
